@@ -19,7 +19,7 @@ impl Compiler {
     /// for the next program), the code handed out ends with Halt, and the constants handed out are all the
     /// compiler's constants
     fn compile_program(&mut self, ast: &Vec<Stmt>) -> (r: Result<Bytecode, Error>)
-        requires gen_inv(*old(self))
+        requires gen_inv(*old(self)), old(self).last_instruction != Some(OpCode::ReturnValue)
         ensures
             //@VACUITY
             r is Ok ==> (final(self).instructions@.len() == 0 && r->Ok_0.instructions@.len() > 0 && r->Ok_0.instructions@.last() == opcode_byte(OpCode::Halt)
@@ -27,11 +27,14 @@ impl Compiler {
             // whatever happened, the symbol table is still usable (compile_ast resets it after a failure) and the names
             // the global scope had before are still there, in their slots
             sym_wf(final(self).symbols), sym_globals_kept(old(self).symbols, final(self).symbols),
+            // O02.top  static height: Halt is reached with an EMPTY operand stack (every statement dropped what it pushed)
+            r is Ok ==> hstep(H::At(0), final(self).height@, 0),
             // a program that compiles is back in the global context at its outermost scope
             r is Ok ==> sym_contexts(final(self).symbols) == sym_contexts(old(self).symbols) && sym_depth(final(self).symbols) == sym_depth(old(self).symbols),
     {
-//@LOOP 1 invariant sym_globals_kept(old(self).symbols, self.symbols), sym_contexts(self.symbols) == sym_contexts(old(self).symbols), sym_depth(self.symbols) == sym_depth(old(self).symbols), gen_inv(*self)
-//@LOOP 2 invariant self.instructions@.len() > 0, self.instructions@.last() == opcode_byte(OpCode::Halt)
+//@PRELOOP 1 proof { /* a program is a flow of its own: it starts with an empty operand stack */ self.height = Ghost(H::At(0)); }
+//@LOOP 1 invariant hstep(H::At(0), self.height@, 0), sym_globals_kept(old(self).symbols, self.symbols), sym_contexts(self.symbols) == sym_contexts(old(self).symbols), sym_depth(self.symbols) == sym_depth(old(self).symbols), gen_inv(*self)
+//@LOOP 2 invariant hstep(H::At(0), self.height@, 0), self.instructions@.len() > 0, self.instructions@.last() == opcode_byte(OpCode::Halt)
 //@BODY file=compiler.rs fn=compile_program impl=Compiler sig="fn compile_program(&mut self, ast: &BlockStmt) -> Result<Bytecode, Error>" rules="R1;R4;R4s;R11"
     }
 
@@ -43,7 +46,9 @@ impl Compiler {
         requires gen_inv(*old(self)),
                  // between two programs a session is in the global context, at its outermost scope
                  sym_contexts(old(self).symbols) == 1, sym_depth(old(self).symbols) == 1,
+                 old(self).last_instruction != Some(OpCode::ReturnValue),   // Halt after a program that compiled, nothing after one that did not
         ensures
+            final(self).last_instruction != Some(OpCode::ReturnValue),
             //@VACUITY
             final(self).instructions@.len() == 0,
             r is Err ==> (final(self).last_instruction is None && final(self).loop_contexts@.len() == 0),
